@@ -595,6 +595,53 @@ impl World {
         reply
     }
 
+    /// Close listener `lsid` in the middle of a handshake: a SYN from (sa, sp) reaches it through
+    /// `da`, its SYN-ACK is still on the wire when the listener is dropped; the client's ACK arrives
+    /// afterwards.  Everything the server sends to that client is lost.  Recorded as a plain close.
+    fn close_mid(&mut self, lsid: usize, fam: u8, sa: &str, sp: u16, da: &str, dp: u16) {
+        let src = ip_of(sa, fam);
+        let dst = ip_of(da, fam);
+        let seg = |seq: u32, ack: u32, flags: TcpFlags| Packet {
+            src,
+            dst,
+            ttl: 64,
+            payload: Transport::Tcp(TcpSegment {
+                src_port: sp,
+                dst_port: dp,
+                seq,
+                ack,
+                flags,
+                window: 65535,
+                payload: Bytes::new(),
+            }),
+        };
+        let is_reply = move |p: &Packet| match &p.payload {
+            Transport::Tcp(s) => p.dst == src && p.src == dst && s.dst_port == sp && s.src_port == dp,
+            _ => false,
+        };
+        self.guard.deliver(seg(1000, 0, TcpFlags { syn: true, ..TcpFlags::default() }));
+        let replies = self.pump(&is_reply);
+        let synack_seq = replies.iter().find_map(|p| match &p.payload {
+            Transport::Tcp(s) if s.flags.syn && s.flags.ack => Some(s.seq),
+            _ => None,
+        });
+        if self.live(lsid) {
+            let h = self.socks[lsid - 1].host;
+            self.cur(h);
+            let r = self.socks[lsid - 1].real.take();
+            drop(r);
+        }
+        let _ = self.pump(&is_reply);
+        if let Some(sseq) = synack_seq {
+            // the client's ACK of the SYN-ACK arrives late
+            self.guard
+                .deliver(seg(1001, sseq.wrapping_add(1), TcpFlags { ack: true, ..TcpFlags::default() }));
+            let _ = self.pump(&is_reply);
+        }
+        let _ = self.pump(&is_reply);
+        self.emit(json!({"ev":"close","sids":[lsid],"mid":true}));
+    }
+
     /// Tagged bytes written on stream `c`; returns the stream sids that read them.
     fn probe_data(&mut self, c: usize) -> Vec<i64> {
         let tag = self.next_tag();
@@ -759,7 +806,19 @@ fn replay_one(beh: &[Value], cfg: &ReplayCfg, record: bool) -> (Option<Value>, V
             }
             "close" => {
                 let sids: Vec<usize> = as_i64s(&act["sids"]).iter().map(|&x| x as usize).collect();
-                w.close(&sids);
+                if act["mid"].is_object() {
+                    let m = &act["mid"];
+                    w.close_mid(
+                        sids[0],
+                        m["fam"].as_u64().unwrap() as u8,
+                        m["sa"].as_str().unwrap(),
+                        m["sp"].as_u64().unwrap() as u16,
+                        m["da"].as_str().unwrap(),
+                        m["dp"].as_u64().unwrap() as u16,
+                    );
+                } else {
+                    w.close(&sids);
+                }
             }
             "connect_udp" => {
                 w.connect_udp(
@@ -1022,6 +1081,7 @@ fn random_run(rng: &mut StdRng, n: usize, ops: usize, probes: usize, all: &mut V
     };
     for _ in 0..ops {
         let r = rng.random_range(0..100);
+        let mut continue_probes = false;
         if let Some((oh, ofam, oport)) = m.orphaned.take() {
             // the listener is gone, its accepted child lives on: bind that port again (the address the
             // child sits on, the wildcard, the host's other address) or ask for an ephemeral port
@@ -1112,7 +1172,25 @@ fn random_run(rng: &mut StdRng, n: usize, ops: usize, probes: usize, all: &mut V
             let l = m.listeners[i];
             let froms: Vec<usize> = (1..=n).filter(|&h| h != l.1).collect();
             let from = froms[rng.random_range(0..froms.len())];
-            let da = host_addr_names(l.1)[rng.random_range(0..2)];
+            // an address through which a SYN from another host reaches this listener (none for a
+            // loopback-bound one: then the SYN is simply refused and the listener is left alone)
+            let laddr = m.bound.iter().find(|b| b.0 == l.0).map(|b| b.3.clone()).unwrap_or_default();
+            let own = host_addr_names(l.1);
+            let reach: Option<&str> = match laddr.as_str() {
+                "wild" => Some(own[rng.random_range(0..2)]),
+                a if a == own[0] => Some(own[0]),
+                a if a == own[1] => Some(own[1]),
+                _ => None,
+            };
+            let da = reach.unwrap_or(own[0]);
+            if reach.is_some() && rng.random_bool(0.45) {
+                // the listener is closed while this handshake is in flight, its port is bound again next
+                let l = m.listeners.swap_remove(i);
+                w.close_mid(l.0, l.2, first_addr(from), SYN_PORT, da, l.3);
+                m.bound.retain(|b| b.0 != l.0);
+                m.orphaned = Some((l.1, l.2, l.3));
+                continue_probes = true;
+            } else {
             w.stall_syn(from, l.2, first_addr(from), SYN_PORT, da, l.3);
             if rng.random_bool(0.6) {
                 let l = m.listeners.swap_remove(i);
@@ -1120,6 +1198,8 @@ fn random_run(rng: &mut StdRng, n: usize, ops: usize, probes: usize, all: &mut V
                 m.bound.retain(|b| b.0 != l.0);
                 m.orphaned = Some((l.1, l.2, l.3));
             }
+            }
+            let _ = continue_probes;
         } else {
             // TCP connect: to a live listener's port on the host the address leads to, or to a
             // fixed port (never to a free ephemeral port: a SYN meeting its own SynSent socket
